@@ -27,17 +27,17 @@ type guardInfo struct {
 }
 
 type Engine struct {
-	repo    string
-	verif   string
-	prog    *ssa.Program
-	pkgs    []*packages.Package
-	spkgs   map[string]*ssa.Package   // by path suffix
-	tpkgs   map[string]*types.Package // by path suffix (including dependencies seen through imports)
-	cs      *ContractSet
-	frames  map[*ssa.Function]*Effects
-	reads   map[*ssa.Function]*Effects
-	guarded map[string]guardInfo
-	funcs   map[string]*ssa.Function
+	repo     string
+	verif    string
+	prog     *ssa.Program
+	pkgs     []*packages.Package
+	spkgs    map[string]*ssa.Package   // by path suffix
+	tpkgs    map[string]*types.Package // by path suffix (including dependencies seen through imports)
+	cs       *ContractSet
+	frames   map[*ssa.Function]*Effects
+	reads    map[*ssa.Function]*Effects
+	guarded  map[string]guardInfo
+	funcs    map[string]*ssa.Function
 	loadSecs float64
 }
 
